@@ -24,6 +24,7 @@ import (
 
 // Prog is one loaded, type-checked and SSA-built configuration of the tree.
 type Prog struct {
+	Opts LoadOpts // how the tree was loaded (a rule that needs the tree of another platform loads it the same way)
 	Dir   string
 	Fset  *token.FileSet
 	All   []*packages.Package
@@ -58,7 +59,7 @@ type LoadOpts struct {
 
 func Load(o LoadOpts) (*Prog, error) {
 	t0 := time.Now()
-	p := &Prog{Dir: o.Dir, Timing: map[string]float64{}}
+	p := &Prog{Dir: o.Dir, Timing: map[string]float64{}, Opts: o}
 	fset := token.NewFileSet()
 	env := append(os.Environ(), "GOFLAGS=-mod=mod", "GOPROXY=off", "GOSUMDB=off", "GOTOOLCHAIN=local", "GOWORK=off")
 	env = append(env, o.Env...)
